@@ -667,6 +667,9 @@ fn lex_table(variant: usize) -> Vec<(&'static str, Vec<&'static str>)> {
         // TAG-only rule and the unrestricted rule equally long — the one listed first wins (rendered by hand
         // in `render_lexer`)
         6 => vec![("[a-z]+", vec!["b", "em"]), ("[a-z]+", vec!["x", "word"]), ("<", vec!["<"]), (">", vec![">"]), ("[0-9]+", vec!["1", "42"])],
+        // `swap_greed` (7: `+` is lazy, a word is lexed one character at a time) and `ignore_whitespace` (8:
+        // nothing changes for these rules): the flags must reach the generated lexer as themselves
+        7 | 8 => vec![("[0-9]+", vec!["0", "42", "007"]), ("[a-z]+", vec!["x", "foo", "\u{e9}t\u{e9}"]), ("\\+", vec!["+"]), ("\\(", vec!["("]), ("\\)", vec![")"])],
         // `.` with `!dot_matches_new_line`: the skipped `%.*` rule (below) ends at the end of the line
         _ => vec![("a", vec!["a"]), ("b", vec!["b"]), ("c.?", vec!["c", "cx"]), ("d", vec!["d"]), ("e", vec!["e"])],
     }
@@ -682,6 +685,12 @@ fn render_lexer(variant: usize, ntoks: usize, comments: bool) -> String {
     }
     if variant == 5 {
         s.push_str("%grmtools{!dot_matches_new_line}\n");
+    }
+    if variant == 7 {
+        s.push_str("%grmtools{swap_greed}\n");
+    }
+    if variant == 8 {
+        s.push_str("%grmtools{ignore_whitespace}\n");
     }
     if comments {
         s.push_str("%x COMMENT\n");
@@ -718,7 +727,8 @@ fn render_lexer(variant: usize, ntoks: usize, comments: bool) -> String {
     if variant == 5 {
         s.push_str("%.* ;\n");
     }
-    s.push_str("[ \\t\\n]+ ;\n");
+    // (with `ignore_whitespace` a literal space in a regex is ignored: written as an escape there)
+    s.push_str(if variant == 8 { "[\\x20\\t\\n]+ ;\n" } else { "[ \\t\\n]+ ;\n" });
     s
 }
 
@@ -990,7 +1000,7 @@ fn candidate(seed: u64, idx: usize, attempt: u64, thorough: bool) -> Option<Pair
         }
         let tags: Vec<Vec<String>> = g.rules.iter().map(|r| r.iter().map(|_| tag_text(&mut rng)).collect()).collect();
         let y = render_yacc(&g, st.yk, st.param, &tags, &mut rng);
-        let variant = if idx < 7 { [0, 4, 5, 3, 1, 2, 6][idx] } else { rng.below(7) };
+        let variant = if idx < 9 { [0, 4, 5, 3, 1, 2, 6, 7, 8][idx] } else { rng.below(9) };
         let comments = rng.chance(1, 3) && variant != 6;
         let l = render_lexer(variant, g.ntoks, comments);
         // both pipelines must accept the pair, and the grammar should have sentences
@@ -1581,7 +1591,7 @@ pub fn run(a: &Args) {
     }
     let _ = std::fs::remove_dir_all(&ddir);
     // translation validation
-    let k = if a.thorough { 40 } else { 8 };
+    let k = if a.thorough { 40 } else { 10 };
     let which: Vec<usize> = (0..k).collect();
     run_tv(a, &mut out, &which);
     out.finish(&a.out);
